@@ -131,11 +131,14 @@ CHECKS.update({
                 design="6/C06", note=BENCH_NOTE),
     "C14": dict(engine="bench", spec="Bench.tla (OpStart/Push/HE/OpDone for queries: one reply per accepted replier, in "
                                      "connection order), PortClones.tla (SharedLinks), TaskSet.tla (WellFormed, NoLostTask, "
-                                     "NoLostNotify)",
+                                     "NoLostNotify), SlotRA.tla (Safe, ValueOnce, NoLeak)",
                 text="TLC explores every completion order of 0..6 repliers with filtered subsets; on the real crate the "
                      "reply vector returned by Requestor::send (each reply encodes the replier, the mapped request and "
                      "the connection's reply map) must equal the specification's under every enumerated schedule and "
-                     "free multi-threaded runs.",
+                     "free multi-threaded runs. Beyond the anchors: the one-shot slot that carries the replies of "
+                     "driver-side queries (util/slot.rs) is decided on SlotRA.tla, a release/acquire model instantiated "
+                     "with the orderings read from the source (data races on the value, racy or double deallocation, "
+                     "use after free, leaks).",
                 design="6/C14", note=BENCH_NOTE + " Port-clone sharing is PortClones.tla (sequential histories); TaskSet.tla "
                                                   "is model-checked at atomic level and bound by sequential replay; "
                                                   "CachedRwLock is not specified at atomic level."),
@@ -278,6 +281,9 @@ def main():
                                       "/verif/harness/src/taskset.rs",
                  serves_properties=["C14"],
                  kind_free_text="TLC interleaving exploration at atomic-step granularity + replay of every sequential history"),
+            dict(name="slot_ra", path="/verif/specs/SlotRA.tla /verif/tools/slotdefs.py /verif/tools/orderings.py",
+                 serves_properties=["C14"],
+                 kind_free_text="TLC on a weak-memory model with orderings extracted from the source"),
             dict(name="seqds", path="/verif/specs/Sinks.tla /verif/specs/PQ.tla /verif/specs/PQ_Trace.tla "
                                     "/verif/tools/check_seqds.py /verif/harness/src/seqds.rs",
                  serves_properties=["C17", "C20"],
